@@ -12,15 +12,15 @@ as an input (`step c s now op`; `Op.fire` = the armed timer fires).  Theorems qu
 configuration, every state satisfying the invariant `Inv` (which holds initially and is preserved by
 every admissible operation at every time, `timer_is_min_partial`), every operation and every time.
 
-Findings of the unchanged code (each with a decided counter-witness below, reproduced on the real
-client by the check on every run):
-* C36-1 `Client.Refresh(ExpireAt = 0)` clears `exp` but leaves `nextExpire` pending; when it fires,
-  `expire()` returns without re-arming: NO timer is armed although deadlines are pending
-  (`timer_dies_after_refresh_zero`), so `timer_is_min` holds only for traces without that call.
-* C36-2 a RefreshHandler answer `ExpireAt = 0` ("no expiration") is not honoured: the connection is
-  closed Expired at the old deadline (`refresh_zero_still_expires`, client-side and server-side).
-* C36-3 `handleSubRefresh` ignores `SubRefreshReply.Expired`: the subscription's expiry is cleared
-  (`subrefresh_expired_clears_expiry`).
+Former findings, all FIXED upstream-style in /repo and mirrored in the model (their replays stay in the
+check's corpus, so a regression is a VIOLATION):
+* C36-1 (fix dc7a0abf) `Client.Refresh(ExpireAt = 0)` used to clear `exp` but leave `nextExpire` pending;
+  the expire op then returned without re-arming and NO timer was armed.  Now `disableExpiration` clears
+  both and reschedules: `timer_is_min` holds for those timelines too (`refresh_zero_keeps_timer_armed`).
+* C36-2a/b (fix dc7a0abf) a RefreshHandler answer `ExpireAt = 0` ("no expiration") was not honoured
+  (`refresh_zero_disables_expiry_client` / `_server`).
+* C36-3 (fix 0280a82e) `handleSubRefresh` ignored `SubRefreshReply.Expired`
+  (`subrefresh_expired_disconnects`).
 -/
 namespace CentrifugeVerif.C36
 open CentrifugeVerif.Timers
@@ -30,9 +30,8 @@ def runOps (c : Cfg) : St → List (Nat × Op) → St
   | s, [] => s
   | s, (now, op) :: rest => runOps c (step c s now op).1 rest
 
-/-- every operation of the timeline is admissible in the state it is applied to (no
-`Client.Refresh(ExpireAt=0)` — finding C36-1 —, no `Client.Refresh` before authentication, `NewClient`
-only once) and happens at a positive time -/
+/-- every operation of the timeline is admissible in the state it is applied to (no `Client.Refresh`
+before authentication, `NewClient` only once) and happens at a positive time -/
 def AdmissibleTrace (c : Cfg) : St → List (Nat × Op) → Prop
   | _, [] => True
   | s, (now, op) :: rest => 0 < now ∧ Admissible s op ∧ AdmissibleTrace c (step c s now op).1 rest
@@ -61,13 +60,13 @@ theorem inv_runOps (c : Cfg) (hsec : 0 < c.sec) (s : St) (tl : List (Nat × Op))
     obtain ⟨hnow, ha, hrest⟩ := hadm
     exact ih _ (step_inv c s now op hsec hnow ha h) hrest
 
-/-- **timer_is_min** (partial: traces without `Client.Refresh(ExpireAt=0)`, see C36-1): after EVERY
-operation of EVERY admissible timeline — connect, pings, pongs, refreshes (client- and server-side),
-sub refreshes, timer firings at arbitrary times, in any order — an open authenticated connection has its
-single timer armed, for exactly the minimum of the pending deadlines (next expire / presence / ping /
-pong), and `timerOp` is the kind of that deadline.  Hence no pending deadline is ever missed.
-Full statement (FALSE for the current code, witness below): the same for all timelines. -/
-theorem timer_is_min_partial (c : Cfg) (hsec : 0 < c.sec) (rhr srhr : List Ans) (tl : List (Nat × Op))
+/-- **timer_is_min**: after EVERY operation of EVERY admissible timeline — connect, pings, pongs,
+refreshes (client- and server-side, including `ExpireAt = 0`), sub refreshes, timer firings at arbitrary
+times, in any order — an open authenticated connection has its single timer armed, for exactly the
+minimum of the pending deadlines (next expire / presence / ping / pong), and `timerOp` is the kind of
+that deadline.  Hence no pending deadline is ever missed.
+(Exclusions kept: `Client.Refresh` on a not yet authenticated connection, a second `NewClient`.) -/
+theorem timer_is_min (c : Cfg) (hsec : 0 < c.sec) (rhr srhr : List Ans) (tl : List (Nat × Op))
     (hadm : AdmissibleTrace c { rhr := rhr, srhr := srhr } tl) :
     let s := runOps c { rhr := rhr, srhr := srhr } tl
     s.status = .connected →
@@ -92,19 +91,27 @@ theorem schedule_arms_min (s : St) (hcl : s.status ≠ .closed) (hne : pending s
     obtain ⟨_, _, _, hmem, hmin⟩ := pick_some s o t hpk
     exact ⟨t, rfl, hmem, hmin⟩
 
-/-! ### C36-1: the counter-witness to the unrestricted `timer_is_min` -/
+/-! ### C36-1 (fixed): `Client.Refresh(ExpireAt = 0)` keeps the timer armed -/
 
 def cfgW : Cfg := { sec := 1000, pingInterval := 1000, pongTimeout := 400, staleDelay := 2000, ecd := 1000,
                     escd := 1000, presInterval := 3000 }
 
 def cfgNP : Cfg := { cfgW with pingInterval := 0, pongTimeout := 0 }
 
-/-- connect with ExpireAt = now+3 s, `Client.Refresh(ExpireAt=0)` at 1.5 s, a presence tick, then the
-stale expire deadline fires at 3.3 s: the connection stays open, deadlines are pending, NO timer is armed
-(so the presence tick due at 5.552 s — and with pings enabled every ping / pong check — never happens). -/
-theorem timer_dies_after_refresh_zero :
+/-- `Client.Refresh(ExpireAt = 0)` / a refresh answer `ExpireAt = 0` on an open connection: expiry is off,
+no expire deadline stays pending, the connection stays open. -/
+theorem refresh_zero_disables_expiry (s : St) (hst : s.status = .connected) :
+    (disableExpiration s).exp = 0 ∧ (disableExpiration s).nextExpire = 0 ∧
+    (disableExpiration s).status = .connected := by
+  unfold disableExpiration
+  have h := schedule_keeps { s with exp := 0, nextExpire := 0 }
+  exact ⟨h.2.2.2.2.2, h.2.2.2.1, by rw [h.2.2.1]; exact hst⟩
+
+/-- the former counter-witness timeline (connect with ExpireAt = now+3 s, `Client.Refresh(ExpireAt=0)` at
+1.5 s, a presence tick): the timer stays armed for the remaining deadline, nothing fires at 3.3 s. -/
+theorem refresh_zero_keeps_timer_armed :
     let s := runOps cfgNP {} [(100, .new), (300, .connect 3 0 2252), (1500, .srefresh .zero), (2552, .fire), (3300, .fire)]
-    s.status = .connected ∧ s.armed = none ∧ pending s = [3300, 5552] := by decide
+    s.status = .connected ∧ s.armed = some 5552 ∧ pending s = [5552] ∧ s.exp = 0 := by decide
 
 /-! ### no pong ⇒ NoPong at the pong deadline; pong in time ⇒ survives -/
 
@@ -128,6 +135,10 @@ theorem no_pong_preserved (c : Cfg) (s : St) (now : Nat) (op : Op) (hop : op ≠
       (applyRefresh c s now d).lastSeen < (applyRefresh c s now d).lastPing := by
     intro d; right
     rw [(applyRefresh_keeps c s now d).1, (applyRefresh_keeps c s now d).2.1]; exact h
+  have hde : (disableExpiration s).status = .closed ∨
+      (disableExpiration s).lastSeen < (disableExpiration s).lastPing := by
+    right; unfold disableExpiration
+    rw [(schedule_keeps _).1, (schedule_keeps _).2.1]; exact h
   cases op with
   | pong => exact absurd rfl hop
   | fire => exact absurd rfl hf
@@ -163,7 +174,7 @@ theorem no_pong_preserved (c : Cfg) (s : St) (now : Nat) (op : Op) (hop : op ≠
             cases a with
             | error => exact Or.inr h
             | expired => exact hcl _
-            | zero => exact Or.inr h
+            | zero => exact hde
             | «at» d =>
               by_cases hd : d > 0
               · simp only [hd, if_true]; exact hap d
@@ -176,7 +187,7 @@ theorem no_pong_preserved (c : Cfg) (s : St) (now : Nat) (op : Op) (hop : op ≠
     | zero =>
       by_cases h1 : s.status = .closed
       · simp only [h1, if_true]; exact Or.inr h
-      · simp only [h1, if_false]; exact Or.inr h
+      · simp only [h1, if_false]; exact hde
     | «at» d =>
       by_cases hd : d > 0
       · simp only [hd, if_true]
@@ -215,7 +226,7 @@ theorem no_pong_preserved (c : Cfg) (s : St) (now : Nat) (op : Op) (hop : op ≠
             · rw [if_neg h4]
               cases a with
               | error => exact Or.inr h
-              | expired => exact Or.inr h
+              | expired => exact hcl _
               | zero => exact Or.inr h
               | «at» d =>
                 by_cases hd : d < 0
@@ -407,23 +418,25 @@ theorem not_before_deadline (c : Cfg) (s : St) (now d : Nat) (harm : s.armed = s
   rw [harm]
   simp [h]
 
-/-! ### C36-2: an answer "no expiration" (ExpireAt = 0) is not honoured -/
+/-! ### C36-2 (fixed): an answer "no expiration" (ExpireAt = 0) is honoured -/
 
 def cfgCSR : Cfg := { cfgW with csr := true, hasRH := true }
 def cfgSSR : Cfg := { cfgW with csr := false, hasRH := true }
 
-/-- client-side: refresh command at 1.5 s answered ExpireAt = 0 → reply `expires=false`, but the old
-deadline (connect 0.3 s + 3 s + 1 s grace) still closes the connection as Expired. -/
-theorem refresh_zero_still_expires_client :
+/-- client-side: refresh command at 1.5 s answered ExpireAt = 0 → reply `expires=false`, expiry off; the old
+deadline (4.3 s) does nothing and the connection stays open. -/
+theorem refresh_zero_disables_expiry_client :
     let s1 := runOps cfgCSR {} [(100, .new), (300, .connect 3 5360 2252)]
     let s2 := runOps cfgCSR s1 [(1500, .refresh .zero), (2552, .fire)]
     (step cfgCSR s1 1500 (.refresh .zero)).2 = [.rrefresh false 0] ∧
-    (fire cfgCSR s2 4300).2 = [.disc dExpired] := by decide
+    (fire cfgCSR s2 4300).2 = [] ∧ s2.status = .connected ∧ s2.exp = 0 ∧ s2.nextExpire = 0 := by decide
 
-/-- server-side: the handler called at the deadline answers ExpireAt = 0 → closed Expired at once. -/
-theorem refresh_zero_still_expires_server :
+/-- server-side: the handler called at the deadline answers ExpireAt = 0 → no close, expiry off, the timer
+re-armed for the next deadline. -/
+theorem refresh_zero_disables_expiry_server :
     let s1 := runOps cfgSSR { rhr := [.zero] } [(100, .new), (300, .connect 3 5360 5252)]
-    (fire cfgSSR s1 3300).2 = [.rh .zero, .disc dExpired] := by decide
+    (fire cfgSSR s1 3300).2 = [.rh .zero] ∧ (fire cfgSSR s1 3300).1.status = .connected ∧
+    (fire cfgSSR s1 3300).1.exp = 0 ∧ (fire cfgSSR s1 3300).1.armed = some 5552 := by decide
 
 /-! ### subscription expiry (checked on the presence tick) -/
 
@@ -456,12 +469,12 @@ theorem sub_refresh_moves_expiry (c : Cfg) (s : St) (now : Nat) (ch : Nat) (d : 
   have hdn : ¬ d < 0 := by omega
   simp [step, hcl, hau, hsrh, hfind, hcsr, hdn]
 
-/-! ### C36-3: `SubRefreshReply.Expired` is ignored by the client-side sub refresh -/
+/-! ### C36-3 (fixed): `SubRefreshReply.Expired` closes the connection with DisconnectExpired -/
 
-theorem subrefresh_expired_clears_expiry :
+theorem subrefresh_expired_disconnects :
     let s1 := runOps { cfgW with hasSRH := true } {} [(100, .new), (300, .connect 0 536 2252), (400, .sub 1 2 true)]
-    (step { cfgW with hasSRH := true } s1 2500 (.subrefresh 1 .expired)).2 = [.rsubrefresh false 0] ∧
-    (step { cfgW with hasSRH := true } s1 2500 (.subrefresh 1 .expired)).1.subs = [{ ch := 1, expireAt := 0, csr := true }] := by
+    (step { cfgW with hasSRH := true } s1 2500 (.subrefresh 1 .expired)).2 = [.disc dExpired] ∧
+    (step { cfgW with hasSRH := true } s1 2500 (.subrefresh 1 .expired)).1.status = .closed := by
   decide
 
 /-! ### concrete instances of the hypotheses -/
@@ -469,6 +482,9 @@ theorem subrefresh_expired_clears_expiry :
 -- an admissible timeline: connect, a ping fires, pong, a refresh, the pong check fires
 example : AdmissibleTrace cfgCSR {} [(100, .new), (300, .connect 3 536 2252), (836, .fire), (900, .pong),
     (1000, .refresh (.at 5)), (1236, .fire)] := by decide
+-- a timeline with `Client.Refresh(ExpireAt = 0)` is admissible too
+example : AdmissibleTrace cfgNP {} [(100, .new), (300, .connect 3 0 2252), (1500, .srefresh .zero), (2552, .fire),
+    (3300, .fire)] := by decide
 -- … after which the timer is armed for the minimum (here the next ping)
 example : (runOps cfgCSR {} [(100, .new), (300, .connect 3 536 2252), (836, .fire), (900, .pong),
     (1000, .refresh (.at 5)), (1236, .fire)]).armed = some 1836 := by decide
